@@ -16,7 +16,7 @@ func init() {
 		Rule: "payloader: one execution = one payloader instance driven through 32768+130 frames (every picture id, the 127/128 form switch and the wrap) for one (MTU, picture ids on/off, frame-length cycle offset), each frame is one case; decoder: one execution = one descriptor (all 256 first octets x all 256 extension octets x field values) with every truncation as a case; non-trivial = frame needs more than one packet / descriptor has the extension octet",
 		Assumptions: []string{
 			"payloader MTUs {5,6,8,10,100,1200} with picture ids and {2,3,4,10,100,1200} without (thorough: every MTU up to 40 and {63..65,127..129,255..257,1200,65535}); frame lengths cycle through {1,2,3,k*(MTU-h)+{-1,0,1} for k=1,2,3} (h = descriptor size in use) with every cycle offset, so that every picture id meets every length class",
-			"for odd cycle offsets an unrelated second payloader is used every third frame; for offsets 2,3 mod 4 every fifth frame is preceded by a call with nil / empty input, which sends nothing and is read as not being a frame (the ids of the frames around it stay consecutive; the first frame sent carries 0)",
+			"for cycle offsets that are a multiple of 3 EnablePictureID is switched off for three frames out of every fifty (those frames carry no id; every frame counts for the running id, as in the unchanged library); for odd cycle offsets an unrelated second payloader is used every third frame; for offsets 2,3 mod 4 every fifth frame is preceded by a call with nil / empty input, which sends nothing and is read as not being a frame (the ids of the frames around it stay consecutive; the first frame sent carries 0)",
 			"long frames: 257, 65537 and 70000 packets per frame (one-byte fragment budget at the smallest MTU of each picture-id form, and MTU 1200 with frames of 300 000 bytes) at picture ids {0,127,128,0x7FFF}",
 			"decoder field alphabets in the flag product: 7-bit ids {0,127,0x55}, 15-bit ids {0,0x7FFF,0x1234}, TL0PICIDX {0,255}, TID/Y/KEYIDX octet {00,FF,A5}, 0/1/3 payload bytes; complete sub-domains one field at a time: all 128 + 32768 picture ids, all 256 TL0PICIDX, all 256 TID/Y/KEYIDX octets x T x K",
 			"a cut exactly after the descriptor leaves an empty payload, which the library accepts (pinned by an existing test)",
@@ -76,8 +76,14 @@ func c11Payloader(c *mc.Ctx) {
 			}
 		}
 		id := uint16(f & 0x7FFF)
-		h := 1
+		// for offsets that are a multiple of 3 the picture ids are switched off for three frames
+		// out of fifty: those frames carry none, and every frame counts for the running id
+		idsNow := ids && !(offset%3 == 0 && f%50 >= 10 && f%50 <= 12)
 		if ids {
+			p.EnablePictureID = idsNow
+		}
+		h := 1
+		if idsNow {
 			h = 3
 			if id >= 128 {
 				h = 4
@@ -118,7 +124,7 @@ func c11Payloader(c *mc.Ctx) {
 			if d.PID != 0 {
 				c.Failf("partition-index", "mtu=%d frame %d packet %d: partition index %d", mtu, f, i, d.PID)
 			}
-			if ids {
+			if idsNow {
 				if d.X != 1 || d.I != 1 || d.PictureID != id {
 					c.Failf("picture-id", "mtu=%d frame %d (expected picture id %d) packet %d: X=%d I=%d PictureID=%d (%s)", mtu, f, id, i, d.X, d.I, d.PictureID, hx(pk))
 				}
